@@ -151,7 +151,7 @@ PROPS = {
         "tiers": tiers(3000, 120000),
         "rule": "rapid-generated scenario: 0-3 initial registrations, then 2-4 client tasks each issuing 1-6 operations (Subscribe with Once/Async/Sequential/filter options, Unsubscribe, Clear, Publish) on 1-2 shared event types drawn from 40, + choice tape. Every API call/return and handler entry is stamped with the simulator's sequence number; the oracle applies the property's interval rules per (registration, publish) pair and probes the quiescent registry with two extra publishes. Non-trivial: >=1 decision point with >=2 ready tasks; distinct = (scenario shape, schedule trace hash, history hash).",
         "components": REAL_BUS,
-        "assumptions": COMMON_ASSUME + ["each registration uses its own handler function, so a registration is identified by its function (Unsubscribe is by function identity)"],
+        "assumptions": COMMON_ASSUME + ["outside the twins runs each registration uses its own handler function, so a registration is identified by its function (Unsubscribe is by function identity); in twins runs registrations of one function are interchangeable for Unsubscribe and the rules are stated per function group"],
     },
     "C04": {
         "race_companion": {"quick": 300, "thorough": 8000},
@@ -162,3 +162,33 @@ PROPS = {
         "expect_probes": [],
     },
 }
+
+# Additions made after the first build (waves 3 and 4 of seeded changes, the reach diagnostic); appended to the
+# generation rule that every evidence file quotes.
+RULE_ADDENDA = {
+    "C02": "A quarter of the runs are 'twins' runs: every registration is a closure of one of two function literals (same code pointer, own uid), 1-3 tasks subscribe / unsubscribe / publish, and the oracle is stated per function group (each successful Unsubscribe removes exactly one registration, a fired Once retires itself only; per-publish delivery bounds and HandlerCount bounds valid under every linearization).",
+    "C03": "Upcasters are registered under the persisted names of the scenario's own three event types; a sequential preamble stores events and registers upcasters so that concurrent replays walk real chains; resumable subscriptions on the active types; direct SaveOffset / LoadOffset operations.",
+    "C04": "In a quarter of the runs every Once handler panics at the end of its invocation; a canceller handler subscribed first cancels chosen publishes mid-way.",
+    "C05": "Eight panic-value kinds incl. a typed-nil pointer error, a typed-nil Stringer and an error whose Error() panics; optional Observability; publish through an interface-typed value; panic handler by option or setter, optionally re-entering the bus.",
+    "C06": "Registrations may also be Sequential and filtered (even / odd ids), so several Async+Sequential handlers of one type see different event counts.",
+    "C07": "Cancellation of chosen publishes by a synchronous neighbour or by a task of its own 0-40 decision points after the publish started; a first invocation 40 times longer than the others (a queue builds up); one run in six uses resumable Sequential subscriptions (SubscribeWithReplay) made while publishers run, checked for overlap only.",
+    "C10": "A quarter of the SQLite / durable-streams runs open the store with its optional instrumentation (metrics hook whose callbacks are decision points, logger, 250 ms busy timeout, no auto-migration on reopen).",
+    "C11": "Transport faults incl. a GET answered after the client's deadline; callbacks that cancel and return an error in one call; a quarter of the SQLite / durable-streams runs with store instrumentation options.",
+    "C12": "SQL-level failure of one chosen write to the subscription table; SQLite runs optionally with store instrumentation options and no auto-migration on reopen.",
+    "C13": "Error handler by option or by SetPersistenceErrorHandler; WithStore first or last among the options; publishes optionally carry a context with its own 10 s deadline; invalid json.RawMessage events.",
+    "C16": "Registrations optionally given as WithUpcast options; after every sequential history one event of each name is replayed with upcasting and the resulting types are compared with the model graph.",
+    "C17": "One run in five uses a linear chain of 8-40 steps with the failure anywhere; upcasters optionally by WithUpcast option, error handler by option or setter, optionally a registry history (decoy upcaster registered, then ClearUpcasts / ClearUpcastsForType) before the registrations under test.",
+    "C18": "Two more collections with explicit entity type names containing the key separator ('<SUser's type name>/admin', 'shop/order').",
+    "C19": "Raw inputs incl. malformed control headers alone and as stray members of change messages; 'hdr' corruption adds or replaces one or two header members (some ill-typed) of a valid message; the decoder model reads the protocol's typed members.",
+    "C20": "Nested publishes from inside handlers; unencodable events on persistent buses; panic values of eight kinds.",
+}
+TAPE_NOTE = " Half of the drawn choice tapes end in a tail seed that expands to 4000 further pseudo-random choices (stickiness 3/6/9 in 10), so long runs keep switching tasks after the explicit tape is used up."
+for _pid, _m in PROPS.items():
+    if _pid in RULE_ADDENDA:
+        _m["rule"] += " " + RULE_ADDENDA[_pid]
+    if _pid != "C14":
+        _m["rule"] += TAPE_NOTE
+    if _m.get("race_companion"):
+        _m["rule"] += " Race companion: %d (quick) / %d (thorough) further cases per worker of the same generator run in a -race build; a report counts only if both racing accesses are in jilio/ebu code." % (_m["race_companion"]["quick"], _m["race_companion"]["thorough"])
+        _m["components"] = dict(_m["components"], **{"race detection (companion)": "real Go race detector in a -race build of the instrumented code; happens-before edges of the sync primitives supplied by the shims, scheduler hand-offs hidden; the harness's own shared bookkeeping is reported too and filtered out by frame"})
+        _m["assumptions"] = list(_m["assumptions"]) + ["race reports with a racing access outside jilio/ebu code (harness bookkeeping) are discarded"]
